@@ -31,11 +31,14 @@ LH  == Loc(M1, 5, <<Ln(H, 30, 1)>>, FALSE)
 LGF == Loc(M0, 6, <<Ln(G, 21, 1), Ln(F, 11, 1)>>, FALSE)          \* g inlined into f
 L3  == Loc(M1, 7, <<Ln(H, 31, 1), Ln(G, 22, 1), Ln(F, 12, 1)>>, FALSE)
 LU  == Loc(M0, 8, <<>>, FALSE)                                    \* unsymbolised
+F2  == Fn("f", "f", "b.c", 0)                                     \* another function called f, in another file
+LF2 == Loc(M0, 9, <<Ln(F2, 40, 1)>>, FALSE)
 Locs == <<LF, LG, LH, LGF, L3, LU>>
 Universe == {"f", "g", "h", "a.c", "b.c", "bin", "lib"}
 
 Stacks(dummy) == {<<>>} \cup {<<Locs[i]>> : i \in DOMAIN Locs} \cup {<<Locs[i], Locs[j]>> : i, j \in DOMAIN Locs}
           \cup {<<LF, LGF, LH>>, <<L3, LG, L3>>, <<LU, LF, LU>>}
+          \cup {<<LF2>>, <<LF, LF2>>, <<LF2, LF>>, <<LF2, LH>>, <<LGF, LF2>>}      \* two functions of one name in different files
 Second(dummy) == IF Tier # "thorough" THEN {<<LGF, LH>>, <<>>} ELSE {<<LGF, LH>>, <<>>, <<L3, LF>>}
 Profiles(dummy) == { << Smp(a, <<1, 3>>, <<SLab("k", <<"x">>)>>, <<>>), Smp(b, <<2, -2>>, <<>>, <<>>) >> : a \in Stacks(0), b \in Second(0) }
 
@@ -145,6 +148,11 @@ TagCases(dummy) ==
   \cup { [kind |-> "tag", samples |-> p, tf |-> NoTag, ti |-> ti, tshow |-> None, thide |-> None] : p \in TagSamples(0), ti \in TagExprs }
   \cup { [kind |-> "tag", samples |-> p, tf |-> NoTag, ti |-> NoTag, tshow |-> sh, thide |-> hd] :
            p \in TagSamples(0), sh \in {None, Rx({"k"}), Rx({"n", "j"}), Rx({})}, hd \in {None, Rx({"k"}), Rx({"j", "m"})} }
+  \* tag filters together with tagshow / taghide: the filters see the labels before any key is hidden
+  \cup { [kind |-> "tag", samples |-> p, tf |-> tf, ti |-> NoTag, tshow |-> None, thide |-> hd] :
+           p \in TagSamples(0), tf \in TagExprs, hd \in {Rx({"k"}), Rx({"j", "n"})} }
+  \cup { [kind |-> "tag", samples |-> p, tf |-> NoTag, ti |-> ti, tshow |-> sh, thide |-> None] :
+           p \in TagSamples(0), ti \in TagExprs, sh \in {Rx({"j"}), Rx({"m"})} }
 
 GuardCases == { [kind |-> "name",
                  samples |-> << Smp(<<LGF, LH>>, <<1, 3>>, <<>>, <<>>), Smp(<<>>, <<2, -2>>, <<>>, <<>>) >>,
